@@ -96,6 +96,19 @@ type Step struct {
 	RTO     int    `json:"rto,omitempty"`
 	// content match for schedules that do not know mids (TLC-generated)
 	Match *JMsg `json:"match,omitempty"`
+	// pattern selection for hand-written / abstract schedules: the oldest
+	// in-flight message with this type / sender / receiver (zero = any)
+	Sel *MsgSel `json:"sel,omitempty"`
+}
+
+type MsgSel struct {
+	Type   string  `json:"type,omitempty"`
+	From   uint64  `json:"from,omitempty"`
+	To     uint64  `json:"to,omitempty"`
+	Index  *uint64 `json:"index,omitempty"`
+	Term   uint64  `json:"term,omitempty"`
+	Reject *bool   `json:"reject,omitempty"`
+	NEnts  *int    `json:"nents,omitempty"`
 }
 
 func NewCluster(cl JCluster, out io.Writer, tr int) *Cluster {
@@ -248,7 +261,7 @@ func (c *Cluster) activate() {
 
 func (c *Cluster) Init() {
 	c.activate()
-	c.emit(&Event{Act: "Init", Cl: &c.Cl}, nil)
+	c.emit(&Event{Act: "Init", Cl: clampCl(c.Cl)}, nil)
 	for _, id := range c.IDs {
 		n := c.Nodes[id]
 		if n.Cfg.Initial {
@@ -428,6 +441,20 @@ func (c *Cluster) Do(s Step) bool {
 		return true
 	case "Restart":
 		return c.doRestart(s)
+	case "ProcessReady": // composite: run the node's Ready pipeline to the end
+		did := false
+		for k := 0; k < 10; k++ {
+			n := c.up(s.Node)
+			if n == nil {
+				break
+			}
+			st := nextReadyStep(n)
+			if st == "" || (k > 0 && st == "Ready") || !c.Do(Step{Act: st, Node: s.Node}) {
+				break
+			}
+			did = true
+		}
+		return did
 	case "Stabilized":
 		n := c.up(s.Node)
 		if n == nil {
@@ -441,6 +468,18 @@ func (c *Cluster) Do(s Step) bool {
 }
 
 func (c *Cluster) resolveMid(s Step) int {
+	if s.Mid == 0 && s.Sel != nil {
+		for _, nm := range c.Net {
+			jm := jMsg(nm.M)
+			q := s.Sel
+			if (q.Type == "" || q.Type == jm.Type) && (q.From == 0 || q.From == jm.From) && (q.To == 0 || q.To == jm.To) &&
+				(q.Index == nil || *q.Index == jm.Index) && (q.Term == 0 || q.Term == jm.Term) &&
+				(q.Reject == nil || *q.Reject == jm.Reject) && (q.NEnts == nil || *q.NEnts == len(jm.Entries)) {
+				return nm.Mid
+			}
+		}
+		return -1
+	}
 	if s.Mid != 0 || s.Match == nil {
 		return s.Mid
 	}
